@@ -1,3 +1,294 @@
-import StirVerif.C14.Model
+/-
+C14 — "List-mode histogramming and list-mode likelihood agree with the event list".
+Property theorems over the model of `Model.lean` (`processData` = `LmToProjData::process_data`).  All statements are
+for every record list, every frame list, every template and every batch size (no bound).
+-/
+import StirVerif.C14.ProofsGrad
+
 namespace StirVerif.C14
+
+/-- configurations `set_up()` produces: a non-empty template and batch sizes ≥ 1 -/
+structure Cfg.WF (c : Cfg) : Prop where
+  segs : 1 ≤ c.segsInMemory
+  tofs : 1 ≤ c.tofInMemory
+  seg : c.tpl.minSeg ≤ c.tpl.maxSeg
+  tof : c.tpl.minTof ≤ c.tpl.maxTof
+
+/-- `set_up()` yields such a configuration whenever the requested batch sizes are `-1` or ≥ 1 and the
+    template is not empty (`maximum absolute segment number to process` = `-1` or ≥ 0) -/
+theorem C14_setUp_WF (t : Template) (p : Params) (c : Cfg) (h : setUp t p = some c)
+    (hs : p.segsInMemory = -1 ∨ 1 ≤ p.segsInMemory) (ht : p.tofInMemory = -1 ∨ 1 ≤ p.tofInMemory)
+    (hseg : 0 ≤ t.maxSeg ∧ t.minSeg = -t.maxSeg) (htof : t.minTof ≤ t.maxTof)
+    (hm : p.maxSegToProcess = -1 ∨ 0 ≤ p.maxSegToProcess) : c.WF := by
+  unfold setUp at h
+  simp only at h
+  split at h
+  · cases h
+  · next inc hinc =>
+    simp only [Option.some.injEq] at h
+    subst h
+    constructor <;> simp only <;> split <;> omega
+
+/-- **"the result does not depend on how many segments or TOF bins are held in memory at once"**, core:
+    every frame's histogram written by the multi-pass run (batches of `num_segments_in_memory` segments ×
+    `num_TOF_bins_in_memory` TOF bins, first pass skipping to the frame start and saving the position, later passes
+    rewinding to it) is the histogram of reading the data ONCE with everything in memory — for every record list,
+    in time-frame mode with any frames, and in `num_events_to_store` mode with one frame. -/
+theorem C14_process_eq_single_pass (c : Cfg) (h : c.WF) (hmode : c.doTimeFrame = true ∨ c.frames.length ≤ 1)
+    (recs : List Record) (b : Bin) :
+    (processData c recs).1.map (fun a => value a b) = (singlePass c recs).1.map (fun a => value a b) :=
+  process_eq_singlePass c h.segs h.tofs h.seg h.tof hmode recs b
+
+/-- reading once does not look at the batch sizes -/
+theorem onePass_congr (c c' : Cfg) (h1 : c'.tpl = c.tpl) (h2 : c'.doTimeFrame = c.doTimeFrame)
+    (h3 : c'.storePrompts = c.storePrompts) (h4 : c'.delayedIncrement = c.delayedIncrement) (e : Int)
+    (recs : List Record) : ∀ more cur, onePass c' e more cur recs = onePass c e more cur recs := by
+  induction recs with
+  | nil => intro _ _; rfl
+  | cons r rs ih =>
+    intro more cur
+    cases r with
+    | time t => rw [onePass, onePass]; simp only [h2, ih]
+    | event ev => rw [onePass, onePass]; simp only [h1, h2, eventIncrement, h3, h4, ih]
+
+theorem onePassFrames_congr (c c' : Cfg) (h1 : c'.tpl = c.tpl) (h2 : c'.doTimeFrame = c.doTimeFrame)
+    (h3 : c'.storePrompts = c.storePrompts) (h4 : c'.delayedIncrement = c.delayedIncrement)
+    (h5 : c'.numEventsToStore = c.numEventsToStore) (fs : List (Int × Int)) :
+    ∀ cur recs, onePassFrames c' fs cur recs = onePassFrames c fs cur recs := by
+  induction fs with
+  | nil => intro _ _; rfl
+  | cons f fs ih =>
+    obtain ⟨s, e⟩ := f
+    intro cur recs
+    simp only [onePassFrames, onePass_congr c c' h1 h2 h3 h4, h2, h5, ih]
+
+/-- **batch-size independence**: any two admissible `num_segments_in_memory` / `num_TOF_bins_in_memory`
+    give the same histograms (corollary of `C14_process_eq_single_pass`). -/
+theorem C14_batch_size_independent (c : Cfg) (n m n' m' : Int) (hn : 1 ≤ n) (hm : 1 ≤ m) (hn' : 1 ≤ n') (hm' : 1 ≤ m')
+    (hseg : c.tpl.minSeg ≤ c.tpl.maxSeg) (htof : c.tpl.minTof ≤ c.tpl.maxTof)
+    (hmode : c.doTimeFrame = true ∨ c.frames.length ≤ 1) (recs : List Record) (b : Bin) :
+    (processData { c with segsInMemory := n, tofInMemory := m } recs).1.map (fun a => value a b)
+      = (processData { c with segsInMemory := n', tofInMemory := m' } recs).1.map (fun a => value a b) := by
+  rw [process_eq_singlePass _ hn hm hseg htof hmode, process_eq_singlePass _ hn' hm' hseg htof hmode]
+  simp only [singlePass]
+  rw [onePassFrames_congr c _ rfl rfl rfl rfl rfl, onePassFrames_congr c { c with segsInMemory := n', tofInMemory := m' } rfl rfl rfl rfl rfl]
+
+/-- the hypotheses on frames and stream under which "the events inside a frame" means what the property says:
+    time-frame mode, frames non-empty / ending after 0.01 s / in sequence (what `TimeFrameDefinitions` accepts),
+    time marks that never go back, and no frame lying strictly inside the gap between two consecutive time marks -/
+structure Timely (c : Cfg) (recs : List Record) : Prop where
+  mode : c.doTimeFrame = true
+  frames : FramesOK c.frames
+  regular : regularB c.frames 0 recs = true
+
+/-- **"Histogramming adds, for every event inside a requested time frame, exactly one count … to the bin that the
+    data geometry assigns …, and nothing else"**: for every batch size, every frame's histogram is the one-line
+    specification `direct` — add the increment of every event whose preceding time mark lies in `[start,end)` and
+    whose bin is inside the data. -/
+theorem C14_process_eq_direct (c : Cfg) (h : c.WF) (recs : List Record) (ht : Timely c recs) (b : Bin) :
+    (processData c recs).1.map (fun a => value a b) = c.frames.map fun f => value (direct c recs f.1 f.2) b := by
+  rw [process_eq_singlePass c h.segs h.tofs h.seg h.tof (Or.inl ht.mode),
+    singlePass_eq_direct c ht.mode ht.frames recs ((regularB_iff _ _ _).1 ht.regular), List.map_map]
+  rfl
+
+/-- `direct`, spelled out: the value of a bin is the sum of the increments (`+1` prompt, `delayed_increment` delayed)
+    of exactly the events of the frame that are assigned to that bin … -/
+theorem C14_one_count_per_event (c : Cfg) (recs : List Record) (s e : Int) (b : Bin) :
+    value (direct c recs s e) b
+      = (if c.storePrompts then 1 else 0) *
+          (((timed 0 recs).filter (inWinAt c s e b)).countP fun te => te.2.prompt)
+        + c.delayedIncrement * (((timed 0 recs).filter (inWinAt c s e b)).countP fun te => !te.2.prompt) := by
+  rw [direct_eq, value_filterMap_win, sum_eventIncrement]
+
+/-- … **"minus one for delayed events when they are subtracted"**: what `set_up()` makes of the two switches:
+    both → prompts − delayeds; prompts only → delayeds ignored; delayeds only → delayeds ADDED; none → error -/
+theorem C14_delayed_subtracts (t : Template) (p : Params) (c : Cfg) (h : setUp t p = some c) :
+    (p.storePrompts = true ∧ p.storeDelayeds = true → c.storePrompts = true ∧ c.delayedIncrement = -1) ∧
+    (p.storePrompts = true ∧ p.storeDelayeds = false → c.storePrompts = true ∧ c.delayedIncrement = 0) ∧
+    (p.storePrompts = false ∧ p.storeDelayeds = true → c.storePrompts = false ∧ c.delayedIncrement = 1) ∧
+    ¬(p.storePrompts = false ∧ p.storeDelayeds = false) := by
+  unfold setUp at h
+  simp only at h
+  cases hp : p.storePrompts <;> cases hd : p.storeDelayeds <;> simp [hp, hd] at h ⊢ <;> subst h <;> simp [hp]
+
+/-- so with both switches on a bin holds (#prompts − #delayeds) of the frame assigned to it -/
+theorem C14_trues (c : Cfg) (hp : c.storePrompts = true) (hd : c.delayedIncrement = -1) (recs : List Record) (s e : Int)
+    (b : Bin) :
+    value (direct c recs s e) b
+      = (((timed 0 recs).filter (inWinAt c s e b)).countP fun te => te.2.prompt)
+        - (((timed 0 recs).filter (inWinAt c s e b)).countP fun te => !te.2.prompt : Nat) := by
+  rw [C14_one_count_per_event, hp, hd]; simp; omega
+
+/-- **"and nothing else"** / out-of-range events are dropped — for EVERY input (no hypothesis on stream, frames, mode
+    or batch sizes): whatever `process_data` adds is a non-zero increment at a bin that passed the decoder's segment
+    test and the range test (tangential, axial, TOF) … -/
+theorem C14_nothing_outside (c : Cfg) (recs : List Record) :
+    ∀ l ∈ (processData c recs).1, ∀ a ∈ l, binOK c.tpl a.1 ∧ a.2 ≠ 0 :=
+  frameLoop_adds_binOK c c.frames 0 recs
+
+/-- … hence every bin outside the data stays 0 -/
+theorem C14_out_of_range_dropped (c : Cfg) (recs : List Record) (b : Bin) (hb : ¬binOK c.tpl b) :
+    ∀ l ∈ (processData c recs).1, value l b = 0 := by
+  intro l hl
+  apply value_eq_zero_of_forall_ne
+  intro a ha hab
+  exact hb (hab ▸ (C14_nothing_outside c recs l hl a ha).1)
+
+/-- **"the frames of a partition of a time interval add up to the histogram of the whole interval"**, on the
+    specification … -/
+theorem C14_direct_frames_add (c : Cfg) (recs : List Record) (b : Bin) (s0 : Int) (L : List (Int × Int))
+    (hL : IsPartitionFrom s0 L) :
+    (L.map fun f => value (direct c recs f.1 f.2) b).sum = value (direct c recs s0 (lastEnd s0 L)) b :=
+  direct_frames_add c recs b L s0 hL
+
+/-- … and on `process_data` itself: the per-frame histograms of a run over frames that partition `[s0, t)` sum to the
+    histogram of the run with the single frame `[s0, t)` (any batch sizes in either run). -/
+theorem C14_frames_add (c : Cfg) (h : c.WF) (recs : List Record) (ht : Timely c recs) (s0 : Int)
+    (hP : IsPartitionFrom s0 c.frames) (hne : c.frames ≠ []) (b : Bin) :
+    ((processData c recs).1.map fun a => value a b).sum
+      = ((processData { c with frames := [(s0, lastEnd s0 c.frames)] } recs).1.map fun a => value a b).sum := by
+  rw [C14_process_eq_direct c h recs ht b, C14_direct_frames_add c recs b s0 c.frames hP]
+  -- the merged frame satisfies the hypotheses as well
+  cases hfr : c.frames with
+  | nil => exact absurd hfr hne
+  | cons f0 fs =>
+    obtain ⟨s, e⟩ := f0
+    have hP' := hP
+    rw [hfr] at hP'
+    obtain ⟨hs, hse, hrest⟩ := hP'
+    subst hs
+    have hf0 := ht.frames.1 (s, e) (by rw [hfr]; simp)
+    simp only at hf0
+    have hge : e ≤ lastEnd s ((s, e) :: fs) := lastEnd_ge e fs hrest
+    have hT : Timely { c with frames := [(s, lastEnd s ((s, e) :: fs))] } recs := by
+      refine ⟨ht.mode, ⟨?_, by simp⟩, ?_⟩
+      · intro f hf
+        simp only [List.mem_singleton] at hf
+        subst hf
+        simp only
+        omega
+      · rw [regularB_iff]
+        apply Regular_mono c.frames _ _ recs 0 ((regularB_iff _ _ _).1 ht.regular)
+        intro g hg
+        simp only [List.mem_singleton] at hg
+        subst hg
+        exact ⟨(s, e), by rw [hfr]; simp, Int.le_refl _, hge⟩
+    have := C14_process_eq_direct { c with frames := [(s, lastEnd s ((s, e) :: fs))] } ⟨h.segs, h.tofs, h.seg, h.tof⟩ recs hT b
+    rw [this]
+    simp only [List.map_cons, List.map_nil, List.sum_cons, List.sum_nil, Int.add_zero]
+    rfl
+
+/-- **`num_events_to_store`**: without frame definitions (the single frame `(0,0)`, whose end is ignored) the run stores,
+    for every batch size, the contributions of exactly the records of `cutPrefix` … -/
+theorem C14_num_events_cutoff (c : Cfg) (h : c.WF) (hd : c.doTimeFrame = false) (s e : Int) (hf : c.frames = [(s, e)])
+    (hs : s ≤ 0) (he : e ≤ 10) (recs : List Record) (b : Bin) :
+    (processData c recs).1.map (fun a => value a b)
+      = [value (directAll c (cutPrefix c c.numEventsToStore recs)) b] := by
+  rw [process_eq_singlePass c h.segs h.tofs h.seg h.tof (Or.inr (by rw [hf]; simp))]
+  simp only [singlePass, hf, onePassFrames, hd, List.map_cons, List.map_nil]
+  have hsk : skipTo s 0 recs = (0, recs) := by
+    cases recs with
+    | nil => rfl
+    | cons r rs => exact skipTo_ge (by omega)
+  rw [hsk]
+  rw [(onePass_numEvents c hd e he recs c.numEventsToStore 0 0).1]
+  rfl
+
+/-- … where `cutPrefix` is the shortest prefix of the stream whose stored total (prompts − delayeds, or the number of
+    stored events when only one kind is stored) equals `num_events_to_store`, or the whole stream if that is never reached -/
+theorem C14_cutPrefix_char (c : Cfg) (n : Int) (recs : List Record) :
+    cutPrefix c n recs <+: recs ∧
+    (cutPrefix c n recs ≠ recs → stored c (cutPrefix c n recs) = n) ∧
+    (∀ p, p <+: cutPrefix c n recs → p ≠ cutPrefix c n recs → stored c p ≠ n) :=
+  ⟨cutPrefix_prefix c recs n, cutPrefix_total c recs n, cutPrefix_first c recs n⟩
+
+/-- **"The gradient of the list-mode Poisson log-likelihood equals the gradient of the projection-data log-likelihood of
+    the histogrammed data with the same model"**, algebraic core: with prompts only, the list-mode sum over the events of
+    the frame of `row(bin e) j / ybar(bin e)` equals the projection-data sum over bins of `y_b · row_b j / ybar_b`, where
+    `y` is the histogram (`direct`) of that frame — for any rows and any `ybar` over any field.  (The sensitivity term
+    `-Σ_b row_b j` is the same expression in both objective functions.) -/
+theorem C14_lm_grad_eq_pd_grad {K : Type} [Field K] (c : Cfg) (hp : c.storePrompts = true) (hdl : c.delayedIncrement = 0)
+    (recs : List Record) (s e : Int) {J : Type} (row : Bin → J → K) (ybar : Bin → K) (j : J) :
+    ((promptBins c recs s e).map fun b => row b j / ybar b).sum
+      = ∑ b ∈ (promptBins c recs s e).toFinset, ((value (direct c recs s e) b : Int) : K) * (row b j / ybar b) := by
+  rw [direct_prompts_only c hp hdl]
+  exact sum_events_eq_sum_bins _ _
+
+/-! ### the hypotheses are satisfiable (non-vacuity) and needed (negative witnesses) -/
+
+/-- a two-segment template and events in it -/
+def exTpl : Template :=
+  { minSeg := 0, maxSeg := 1, minTof := -1, maxTof := 1, minTang := -1, maxTang := 1, axRange := (fun _ => (0, 1)) }
+
+def exEv (seg view tof : Int) (prompt : Bool) : Record := .event ⟨some ⟨seg, view, 0, 0, tof⟩, prompt⟩
+
+/-- three frames, the first two adjacent, the third after a gap -/
+def exCfg (n m : Int) : Cfg :=
+  { tpl := exTpl, frames := [(0, 1000), (1000, 2000), (2500, 3000)], doTimeFrame := true, numEventsToStore := 0,
+    storePrompts := true, delayedIncrement := -1, segsInMemory := n, tofInMemory := m }
+
+/-- events before the first time mark, on frame boundaries (mark exactly at 1000 and 2000), in the gap, out of range
+    (tang 5 via `none`, TOF 2), delayed events -/
+def exRecs : List Record :=
+  [exEv 0 0 0 true, .time 300, exEv 1 1 1 true, exEv 1 1 1 false, .time 1000, exEv 0 2 (-1) true, exEv 0 2 2 true,
+   .event ⟨none, true⟩, .time 1500, exEv 1 3 0 false, .time 2000, exEv 0 4 0 true, .time 2600, exEv 1 5 1 true, .time 3100,
+   exEv 0 6 0 true]
+
+example : (exCfg 1 2).WF := ⟨by decide, by decide, by decide, by decide⟩
+example : Timely (exCfg 1 2) exRecs := ⟨rfl, ⟨by decide, by decide⟩, by decide⟩
+/-- the instance is not trivial: the three frames hold different, non-zero data, one bin is negative (delayed) -/
+example : (processData (exCfg 1 2) exRecs).1.map (fun a => value a ⟨0, 2, 0, 0, -1⟩) = [0, 1, 0] := by decide
+example : (processData (exCfg 1 2) exRecs).1.map (fun a => value a ⟨1, 3, 0, 0, 0⟩) = [0, -1, 0] := by decide
+example : (processData (exCfg 2 3) exRecs).1.map (fun a => value a ⟨1, 5, 0, 0, 1⟩) = [0, 0, 1] := by decide
+example : IsPartitionFrom 0 [(0, 1000), (1000, 2000)] := by decide
+/-- `num_events_to_store` instance: stops after the second stored event -/
+example : cutPrefix { exCfg 1 1 with doTimeFrame := false, numEventsToStore := 2, frames := [(0, 0)], delayedIncrement := 0 } 2 exRecs
+    = [exEv 0 0 0 true, .time 300, exEv 1 1 1 true] := by decide
+
+/-- **negative witness 1** (replayed on the implementation by the harness: `fixed-gap-case`, known finding
+    `lm2pd:frame-inside-time-mark-gap`): frames `[0,1) [1,2) [2,3)` s, stream `T0.5 e0 T2.5 e1 T2.7 e2 T3.5`.  The time marks
+    jump over the whole second frame; the end of a frame is only tested when a time record is read, so `e1` (time 2.5 s)
+    is histogrammed into frame `[1,2)`. -/
+def gapCfg : Cfg :=
+  { tpl := { minSeg := 0, maxSeg := 0, minTof := 0, maxTof := 0, minTang := -1, maxTang := 1, axRange := (fun _ => (0, 0)) },
+    frames := [(0, 1000), (1000, 2000), (2000, 3000)], doTimeFrame := true, numEventsToStore := 0,
+    storePrompts := true, delayedIncrement := 0, segsInMemory := 1, tofInMemory := 1 }
+
+def gapRecs : List Record :=
+  [.time 500, exEv 0 0 0 true, .time 2500, exEv 0 1 0 true, .time 2700, exEv 0 2 0 true, .time 3500]
+
+theorem C14_process_eq_direct_fails_without_regular :
+    gapCfg.WF ∧ gapCfg.doTimeFrame = true ∧ FramesOK gapCfg.frames ∧ regularB gapCfg.frames 0 gapRecs = false ∧
+    (processData gapCfg gapRecs).1.map (fun a => value a ⟨0, 1, 0, 0, 0⟩) = [0, 1, 0] ∧
+    (gapCfg.frames.map fun f => value (direct gapCfg gapRecs f.1 f.2) ⟨0, 1, 0, 0, 0⟩) = [0, 0, 1] := by
+  refine ⟨⟨by decide, by decide, by decide, by decide⟩, rfl, ⟨by decide, by decide⟩, by decide, by decide, by decide⟩
+
+/-- … and the frames of that partition do not add up to the whole interval `[0,3)` either (frame sum 1, whole 0 at
+    the bin of the event after `T3.5` when the stream goes on) — here shown on the shorter partition `[0,1) [1,2)`:
+    sum of the frames = 2 events, whole interval `[0,2)` = 1 event. -/
+theorem C14_frames_add_fails_without_regular :
+    ((processData { gapCfg with frames := [(0, 1000), (1000, 2000)] } gapRecs).1.map fun a =>
+        value a ⟨0, 0, 0, 0, 0⟩ + value a ⟨0, 1, 0, 0, 0⟩).sum = 2 ∧
+    ((processData { gapCfg with frames := [(0, 2000)] } gapRecs).1.map fun a =>
+        value a ⟨0, 0, 0, 0, 0⟩ + value a ⟨0, 1, 0, 0, 0⟩).sum = 1 := by
+  constructor <;> decide
+
+/-- **negative witness 2** (replayed by the harness: `fixed-hybrid-…`, known finding
+    `lm2pd:num-events-with-frames-depends-on-batches`): `num_events_to_store = 1` together with two frames (set through
+    `set_time_frame_definitions`): the mode excluded by `hmode` in `C14_process_eq_single_pass`.  Later passes reset
+    `current_time` to the frame start, so the next frame's skip loop behaves differently: frame 2 holds `e2` with both
+    segments in memory, `e4` with one. -/
+def hybCfg (n : Int) : Cfg :=
+  { tpl := { minSeg := 0, maxSeg := 1, minTof := 0, maxTof := 0, minTang := -1, maxTang := 1, axRange := (fun _ => (0, 0)) },
+    frames := [(100, 200), (300, 400)], doTimeFrame := false, numEventsToStore := 1,
+    storePrompts := true, delayedIncrement := 0, segsInMemory := n, tofInMemory := 1 }
+
+def hybRecs : List Record :=
+  [.time 400, exEv 0 1 0 true, exEv 0 2 0 true, exEv 0 3 0 true, .time 500, exEv 0 4 0 true]
+
+theorem C14_batch_independence_fails_numEvents_with_frames :
+    (processData (hybCfg 2) hybRecs).1.map (fun a => value a ⟨0, 2, 0, 0, 0⟩) = [0, 1] ∧
+    (processData (hybCfg 1) hybRecs).1.map (fun a => value a ⟨0, 2, 0, 0, 0⟩) = [0, 0] := by
+  constructor <;> decide
+
 end StirVerif.C14
